@@ -86,7 +86,7 @@ def main():
         need_cli = False
         props = props_override or (mut['props'] + extra) or ["C01", "C02"]
         for pid in props:
-            if pid in ("C10", "C16", "C17", "C18", "C19"): need_cli = True
+            if pid in ("C10", "C12", "C16", "C17", "C18", "C19"): need_cli = True
         env = dict(os.environ, VERIF_OUT=f"{WS}/out", VERIF_TIER=tier, VERIF_SHRINK_MS=os.environ.get("VERIF_SHRINK_MS", "2000"))
         if need_cli:
             c = sh(f"cd {WS}/repo && CARGO_NET_OFFLINE=true cargo build --bin cteepbd --target-dir {WS}/target-cli 2>&1")
